@@ -83,7 +83,7 @@ def judge(ctx, cases):
 
 def run(ctx):
     rng = random.Random(ctx.seed)
-    cases = fncommon.gen_tlc(ctx, "Gen_C15", "c15", timeout=900)
+    cases = fncommon.gen_tlc(ctx, "Gen_C15", "c15", timeout=1800)
     n = len(cases)
     cases += seeded(ctx, rng, 400 if ctx.tier == "quick" else 4000)
     judge(ctx, cases)
